@@ -36,6 +36,11 @@ TERMS = {
     "L2": Literal("2", datatype=XSD.integer),
     "Lx_en": Literal("x", lang="en"),
     "Lx_EN": Literal("x", lang="EN"),
+    # the same text in other kinds of term
+    "Lx_fr": Literal("x", lang="fr"),
+    "Lx_s": Literal("x", datatype=XSD.string),
+    "L1p": Literal("1"),
+    "La": Literal(EX + "a"),
     "nil": RDF.nil,
     "first": RDF.first,
     "rest": RDF.rest,
